@@ -6,6 +6,7 @@ import (
 	"sort"
 	"strings"
 	"sync"
+	"sync/atomic"
 	"time"
 
 	"github.com/gocql/gocql"
@@ -147,5 +148,147 @@ func closeAtWake(c *runner.Ctx, i int) {
 		}
 		sort.Strings(ks)
 		c.Violation(prop+":goroutine-leak:"+strings.Join(ks, "+"), fmt.Sprintf("%d goroutines are still running driver code after Session.Close returned (%v)", len(leaked), tops), map[string]interface{}{"debouncer": name, "goroutines": leaked[:minInt(len(leaked), 4)]})
+	}
+}
+
+// closeParked (C17): Session.Close while one of the driver's own background activities is held at a point where it
+// waits for something outside the driver - the replacement control connection waiting for the answer to its
+// system.local query, the pool refill that has failed and is asking the (application-supplied) ConvictionPolicy for
+// its verdict. Close is started while the activity is held, the activity is then let go; Close must return and
+// nothing may stay behind.
+
+type c17parkPolicy struct {
+	arrived chan struct{}
+	release chan struct{}
+	once    sync.Once
+}
+
+func (p *c17parkPolicy) AddFailure(err error, host *gocql.HostInfo) bool {
+	parked := false
+	p.once.Do(func() { parked = true })
+	if parked {
+		p.arrived <- struct{}{}
+		select {
+		case <-p.release:
+		case <-time.After(20 * time.Second):
+		}
+	}
+	return true
+}
+func (p *c17parkPolicy) Reset(host *gocql.HostInfo) {}
+
+func closeParked(c *runner.Ctx, i int) {
+	r := c.Rng
+	mode := i % 2
+	name := []string{"control-reconnect-waiting-for-system.local", "refill-failed-waiting-for-conviction"}[mode]
+	cl := fakenode.NewCluster(2)
+	ctl := perturb.Install(c.Seed*31+int64(i), []int{0, 20}[r.Intn(2)], time.Millisecond, &c.Activity)
+	defer perturb.Uninstall()
+	_ = ctl
+	cfg := newCfg(cl, 3+i%3)
+	cfg.Timeout = 500 * time.Millisecond
+	cfg.ConnectTimeout = 500 * time.Millisecond
+	cfg.NumConns = 1 + r.Intn(3)
+	arrived := make(chan struct{}, 4)
+	release := make(chan struct{})
+	var relOnce sync.Once
+	letGo := func() { relOnce.Do(func() { close(release) }) }
+	defer letGo()
+	var armed int32
+	if mode == 0 {
+		// without events no REGISTER follows the system.local query, so nothing else of the set-up can fail
+		cfg.Events.DisableNodeStatusEvents, cfg.Events.DisableTopologyEvents, cfg.Events.DisableSchemaEvents = true, true, true
+		cl.LocalView = func(n *fakenode.Node) *fakenode.PeerRow {
+			if atomic.CompareAndSwapInt32(&armed, 1, 2) {
+				arrived <- struct{}{}
+				select {
+				case <-release:
+				case <-time.After(20 * time.Second):
+				}
+			}
+			return nil
+		}
+	} else {
+		cfg.ConvictionPolicy = &c17parkPolicy{arrived: arrived, release: release}
+	}
+	var sess *gocql.Session
+	var err error
+	c.Guard("CreateSession", func() { sess, err = cfg.CreateSession() })
+	if err != nil {
+		c.Inconclusive("closeparked-session", err.Error())
+		return
+	}
+	// let the pools fill
+	for w := 0; w < 300; w++ {
+		full := true
+		for _, n := range cl.Nodes {
+			if n.DataConnsOpen() < 1 {
+				full = false
+			}
+		}
+		if full {
+			break
+		}
+		time.Sleep(5 * time.Millisecond)
+	}
+	if mode == 0 {
+		conns := cl.AllConns()
+		if len(conns) == 0 {
+			sess.Close()
+			return
+		}
+		atomic.StoreInt32(&armed, 1)
+		conns[0].Close() // the first connection dialled is the control connection
+	} else {
+		n := cl.Nodes[1]
+		n.SetDown(true)
+		for _, sc := range n.OpenConns() {
+			sc.Close()
+		}
+	}
+	select {
+	case <-arrived:
+	case <-time.After(10 * time.Second):
+		letGo()
+		c.Guard("Session.Close", sess.Close)
+		c.Inconclusive("closeparked-not-reached", name+": the activity did not reach its waiting point within 10 s")
+		return
+	}
+	c.Add("activity_parked:"+name, 1)
+	closed := make(chan struct{})
+	go func() {
+		c.Guard("Session.Close", sess.Close)
+		close(closed)
+	}()
+	// Close runs into (or past) the parked activity; then the activity goes on
+	select {
+	case <-closed:
+	case <-time.After(time.Duration(5+r.Intn(40)) * time.Millisecond):
+	}
+	letGo()
+	<-closed // the hang detector owns the verdict if this never returns
+	c.Add("close_parked_cases", 1)
+	c.Add("closes_checked", 1)
+	c.Eval(runner.H("closeparked", mode, cfg.ProtoVersion, cfg.NumConns), true)
+	wit := map[string]interface{}{"held_activity": name}
+	if err := sess.Query("LIST after").Exec(); !errors.Is(err, gocql.ErrSessionClosed) {
+		c.Violation("C17:query-after-close", fmt.Sprintf("a query after Close returned %v, want ErrSessionClosed", err), wit)
+	}
+	openL, leaked := c17awaitClosed(c, cl)
+	if len(openL) > 0 {
+		wit["open_connections"] = openL
+		c.Violation("C17:connection-open-after-close", fmt.Sprintf("%d connections the driver dialled are still open after Session.Close returned (Close ran while: %s)", len(openL), name), wit)
+	}
+	if len(leaked) > 0 {
+		tops := map[string]int{}
+		for _, b := range leaked {
+			tops[topFrameOf(b)]++
+		}
+		var ks []string
+		for k := range tops {
+			ks = append(ks, k)
+		}
+		sort.Strings(ks)
+		c.Violation("C17:goroutine-leak:"+strings.Join(ks, "+"), fmt.Sprintf("%d goroutines are still running driver code after Session.Close returned (%v)", len(leaked), tops), map[string]interface{}{"held_activity": name, "goroutines": leaked[:minInt(len(leaked), 4)]})
 	}
 }
